@@ -212,4 +212,167 @@ def regen(ctx=None):
             f"/-- `BASE64_SENTINEL_VALUE` -/\ndef base64Sentinel : UInt8 := {t['sentinel']}\n\n"
             "end AwsVerif.Gen.CodecTables\n")
     core.write_if_changed(OUT, body)
+    regen_avx2()
     return t, p
+
+
+# ------------------------------------------------------------------ AVX2 constants (source/arch/intel/encoding_avx2.c)
+AVX = os.path.join(cbuild.REPO, "source", "arch", "intel", "encoding_avx2.c")
+OUT_AVX = os.path.join(core.LEAN, "AwsVerif", "Gen", "CodecAvx2Consts.lean")
+
+
+def _strip_comments(src):
+    return re.sub(r"/\*.*?\*/|//[^\n]*", " ", src, flags=re.S)
+
+
+def _function_body(src, name):
+    """text between the braces of the definition of `name`"""
+    m = re.search(r"\b" + re.escape(name) + r"\s*\([^;{]*\)\s*\{", src)
+    if not m:
+        raise core.GenError(f"encoding_avx2.c: definition of {name} not found")
+    i, depth = m.end(), 1
+    while i < len(src) and depth:
+        depth += {"{": 1, "}": -1}.get(src[i], 0)
+        i += 1
+    if depth:
+        raise core.GenError(f"encoding_avx2.c: unbalanced braces in {name}")
+    return src[m.end():i - 1]
+
+
+def _const(expr):
+    """integer constant expression made of integer / character literals, + - and one level of casts"""
+    e = re.sub(r"\(\s*(?:int|char|uint8_t|unsigned char|size_t)\s*\)", "", expr.strip())
+    toks = re.findall(r"'(?:\\.|[^\\'])'|0[xX][0-9a-fA-F]+|\d+|[+\-]|\S", e)
+    val, sign, expect_num = 0, 1, True
+    for tk in toks:
+        if tk in "+-" and not expect_num:
+            sign = 1 if tk == "+" else -1
+            expect_num = True
+        elif expect_num and tk not in "+-":
+            try:
+                val += sign * _c_int(tk)
+            except core.GenError:
+                raise core.GenError("encoding_avx2.c: constant expression not understood: %r" % expr)
+            expect_num = False
+        else:
+            raise core.GenError("encoding_avx2.c: constant expression not understood: %r" % expr)
+    if expect_num:
+        raise core.GenError("encoding_avx2.c: constant expression not understood: %r" % expr)
+    return val
+
+
+def _calls(body, fname, first_arg, nargs):
+    out = []
+    for m in re.finditer(r"\b" + fname + r"\s*\(\s*" + re.escape(first_arg) + r"\s*,([^()]*(?:\([^()]*\)[^()]*)*)\)", body):
+        args = [a for a in m.group(1).split(",")]
+        if len(args) != nargs:
+            raise core.GenError(f"encoding_avx2.c: {fname} call with {len(args) + 1} arguments")
+        out.append(tuple(_const(a) for a in args))
+    return out
+
+
+def _int_list(text):
+    return [_const(x) for x in text.split(",") if x.strip()]
+
+
+def parse_avx2():
+    try:
+        src = _strip_comments(open(AVX).read())
+    except OSError as e:
+        raise core.GenError("encoding_avx2.c unreadable: %s" % e)
+    c = {}
+    dv = _function_body(src, "decode_vec")
+    c["dec_ranges"] = _calls(dv, "translate_range", "*in", 3)
+    c["dec_exact"] = _calls(dv, "translate_exact", "*in", 2)
+    m = re.search(r"_mm256_sub_epi8\s*\(\s*tmp3\s*,\s*_mm256_set1_epi8\s*\(([^()]*)\)\s*\)", dv)
+    m2 = re.search(r"_mm256_cmpeq_epi8\s*\(\s*tmp3\s*,\s*_mm256_set1_epi8\s*\(([^()]*)\)\s*\)", dv)
+    if not m or not m2:
+        raise core.GenError("encoding_avx2.c: decode_vec bias / failure test not in the expected form")
+    c["dec_bias"], c["dec_fail"] = _const(m.group(1)), _const(m2.group(1))
+    ec = _function_body(src, "encode_chars")
+    c["enc_ranges"] = _calls(ec, "translate_range", "in", 3)
+    c["enc_exact"] = _calls(ec, "translate_exact", "in", 2)
+    if len(c["dec_ranges"]) != 3 or len(c["dec_exact"]) != 2 or len(c["enc_ranges"]) != 3 or len(c["enc_exact"]) != 2:
+        raise core.GenError("encoding_avx2.c: expected 3 translate_range + 2 translate_exact calls in decode_vec and in encode_chars, found "
+                            f"{len(c['dec_ranges'])}+{len(c['dec_exact'])} and {len(c['enc_ranges'])}+{len(c['enc_exact'])}")
+    # translate_range / translate_exact themselves: the shape the per-lane model transcribes
+    tr = re.sub(r"\s+", "", _function_body(src, "translate_range"))
+    for frag in ("_mm256_set1_epi8(lo)", "_mm256_set1_epi8((char)(hi-lo))", "_mm256_set1_epi8(offset)", "_mm256_sub_epi8(in,lovec)",
+                 "_mm256_min_epu8(tmp,hivec)", "_mm256_cmpeq_epi8(mask,tmp)", "_mm256_add_epi8(tmp,offsetvec)", "_mm256_and_si256(tmp,mask)"):
+        if frag not in tr:
+            raise core.GenError("encoding_avx2.c: translate_range no longer has the modelled shape (missing %s)" % frag)
+    te = re.sub(r"\s+", "", _function_body(src, "translate_exact"))
+    for frag in ("_mm256_cmpeq_epi8(in,_mm256_set1_epi8(match))", "_mm256_and_si256(mask,_mm256_set1_epi8(decode))"):
+        if frag not in te:
+            raise core.GenError("encoding_avx2.c: translate_exact no longer has the modelled shape (missing %s)" % frag)
+    # shuffle tables
+    pv = _function_body(src, "pack_vec")
+    es = _function_body(src, "encode_stride")
+    for key, body in (("dec", pv), ("enc", es)):
+        m = re.search(r"shufvec_buf\s*=\s*\{([^}]*)\}", body)
+        m2 = re.search(r"shuf32\s*=\s*_mm256_set_epi32\s*\(([^()]*)\)", body)
+        if not m or not m2:
+            raise core.GenError(f"encoding_avx2.c: shuffle tables of {'pack_vec' if key == 'dec' else 'encode_stride'} not found")
+        c[key + "_shufvec"] = _int_list(m.group(1))
+        c[key + "_shuf32"] = list(reversed(_int_list(m2.group(1))))     # _mm256_set_epi32 lists element 7 first
+        if len(c[key + "_shufvec"]) != 32 or len(c[key + "_shuf32"]) != 8:
+            raise core.GenError("encoding_avx2.c: shuffle table of unexpected size")
+    # driver loops
+    dd = _function_body(src, "aws_common_private_base64_decode_sse41")
+    m = re.search(r"while\s*\(\s*len\s*(>=|>)\s*([^()]+?)\s*\)", dd)
+    if not m:
+        raise core.GenError("encoding_avx2.c: decode main loop condition not found")
+    c["dec_loop_min"] = _const(m.group(2)) + (1 if m.group(1) == ">" else 0)
+    m = re.search(r"memset\s*\(\s*tmp_in\s*,([^,]*),", dd)
+    m2 = re.search(r"for\s*\(\s*int\s+i\s*=\s*0\s*;\s*i\s*<\s*([^;]+);\s*i\+\+\s*\)\s*\{\s*if\s*\(\s*tmp_in\s*\[\s*len\s*-\s*1\s*\]\s*==\s*([^)]*)\)", dd)
+    m3 = re.search(r"tmp_in\s*\[\s*len\s*-\s*1\s*\]\s*=(?!=)\s*([^;]*);", dd)
+    if not m or not m2 or not m3:
+        raise core.GenError("encoding_avx2.c: decode tail (fill / padding strip) not in the expected form")
+    c["dec_fill"], c["dec_strip_max"], c["dec_pad"], c["dec_pad_repl"] = _const(m.group(1)), _const(m2.group(1)), _const(m2.group(2)), _const(m3.group(1))
+    ee = _function_body(src, "aws_common_private_base64_encode_sse41")
+    m = re.search(r"while\s*\(\s*inlen\s*(>=|>)\s*([^()]+?)\s*\)", ee)
+    m2 = re.search(r"stridelen\s*=\s*inlen\s*>\s*(\w+)\s*\?\s*(\w+)\s*:\s*inlen", ee)
+    pads = re.findall(r"output\s*\[\s*outlen\s*-\s*(\d+)\s*\]\s*=\s*([^;]*);", ee)
+    if not m or not m2 or len(pads) != 2 or m2.group(1) != m2.group(2):
+        raise core.GenError("encoding_avx2.c: encode loops not in the expected form")
+    c["enc_loop_min"] = _const(m.group(2)) + (1 if m.group(1) == ">" else 0)
+    c["enc_stride"] = _const(m2.group(1))
+    if sorted(int(a) for a, _ in pads) != [1, 2] or len({_const(b) for _, b in pads}) != 1:
+        raise core.GenError("encoding_avx2.c: encode padding stores not in the expected form")
+    c["enc_pad"] = _const(pads[0][1])
+    for k, v in c.items():
+        for x in (v if isinstance(v, list) else [v]):
+            for y in (x if isinstance(x, tuple) else (x,)):
+                if not 0 <= y <= 255:
+                    raise core.GenError(f"encoding_avx2.c: constant {k}={y} does not fit a byte")
+    return c
+
+
+def regen_avx2():
+    c = parse_avx2()
+    trip = lambda l: "[" + ", ".join("(" + ", ".join(str(x) for x in t) + ")" for t in l) + "]"
+    lst = lambda l: "[" + ", ".join(str(x) for x in l) + "]"
+    body = ("/-! GENERATED by props/c05_gen.py from source/arch/intel/encoding_avx2.c of the tree under test on every run. Do not edit. -/\n"
+            "namespace AwsVerif.Gen.CodecAvx2Consts\n\n"
+            "/-- decode_vec: `translate_range(*in, lo, hi, offset)` calls -/\n"
+            f"def decRanges : List (Nat × Nat × Nat) := {trip(c['dec_ranges'])}\n"
+            "/-- decode_vec: `translate_exact(*in, match, decode)` calls -/\n"
+            f"def decExact : List (Nat × Nat) := {trip(c['dec_exact'])}\n"
+            "/-- decode_vec: the bias subtracted at the end, and the value that marks a failed lane -/\n"
+            f"def decBias : Nat := {c['dec_bias']}\ndef decFail : Nat := {c['dec_fail']}\n"
+            "/-- encode_chars: `translate_range(in, lo, hi, offset)` / `translate_exact(in, match, decode)` calls -/\n"
+            f"def encRanges : List (Nat × Nat × Nat) := {trip(c['enc_ranges'])}\n"
+            f"def encExact : List (Nat × Nat) := {trip(c['enc_exact'])}\n"
+            "/-- pack_vec: `shufvec_buf` in memory order, `shuf32` with element 0 first -/\n"
+            f"def decShufvec : List Nat := {lst(c['dec_shufvec'])}\ndef decShuf32 : List Nat := {lst(c['dec_shuf32'])}\n"
+            "/-- encode_stride: `shufvec_buf` in memory order, `shuf32` with element 0 first -/\n"
+            f"def encShufvec : List Nat := {lst(c['enc_shufvec'])}\ndef encShuf32 : List Nat := {lst(c['enc_shuf32'])}\n"
+            "/-- aws_common_private_base64_decode_sse41: smallest `len` for which the vector loop runs, the fill character of tmp_in,\n"
+            "how many trailing padding characters are stripped, the padding character and what replaces it -/\n"
+            f"def decLoopMin : Nat := {c['dec_loop_min']}\ndef decFill : Nat := {c['dec_fill']}\ndef decStripMax : Nat := {c['dec_strip_max']}\n"
+            f"def decPad : Nat := {c['dec_pad']}\ndef decPadRepl : Nat := {c['dec_pad_repl']}\n"
+            "/-- aws_common_private_base64_encode_sse41: smallest `inlen` for which the full-vector loop runs, bytes per stride, padding character -/\n"
+            f"def encLoopMin : Nat := {c['enc_loop_min']}\ndef encStride : Nat := {c['enc_stride']}\ndef encPad : Nat := {c['enc_pad']}\n\n"
+            "end AwsVerif.Gen.CodecAvx2Consts\n")
+    core.write_if_changed(OUT_AVX, body)
+    return c
